@@ -82,7 +82,7 @@ def main(pid: str, tier: str, seed: int, assumptions: Sequence[str] = (), use_ho
     from mc.checks import modeb
 
     extra += modeb.tasks(pid, tier, seed, families=fams)
-    if pid in ("C04", "C05", "C07", "C12"):
+    if pid in ("C04", "C05", "C07", "C09", "C12"):
         from mc.checks import scenarios
 
         extra += scenarios.tasks(pid, tier, seed, families=fams)
